@@ -192,7 +192,7 @@ func ruleP12Hash(p *Prog, r *Report) {
 		r.check(total <= 32, rule, kind+":width", p.pos(f.Pos()), fmt.Sprintf("%d bits in total", total), fmt.Sprintf("%d bits exceed the 32-bit hash (populate panics)", total))
 		// result is the mask's Value()
 		for _, ret := range returnsOf(f) {
-			c, _ := callOf(ret.Results[0])
+			c, _ := callOf(retResult(ret, 0))
 			r.check(c != nil && staticCallee(c) != nil && fnBase(staticCallee(c)) == "Value", rule, kind+":value", p.instrPos(ret), "returns the packed value", "Hash does not return the packed value")
 		}
 	}
@@ -214,7 +214,7 @@ func ruleP12Hash(p *Prog, r *Report) {
 			nAgg++
 			for _, ret := range returnsOf(f) {
 				ok := false
-				v := strip(ret.Results[0])
+				v := strip(retResult(ret, 0))
 				if cv, isCv := v.(*ssa.Convert); isCv {
 					v = strip(cv.X)
 				}
@@ -247,7 +247,7 @@ func ruleP12Hash(p *Prog, r *Report) {
 					}
 				}
 			}
-			c, _ := callOf(ret.Results[0])
+			c, _ := callOf(retResult(ret, 0))
 			got := ""
 			if c != nil && staticCallee(c) != nil {
 				got = fnBase(staticCallee(c))
@@ -274,7 +274,7 @@ func ruleP12Group(p *Prog, r *Report) {
 		}
 	})
 	rets := returnsOf(f)
-	if groups == nil || len(rets) != 1 || strip(rets[0].Results[0]) != ssa.Value(groups) {
+	if groups == nil || len(rets) != 1 || strip(retResult(rets[0], 0)) != ssa.Value(groups) {
 		r.undecided(rule, "groups", p.pos(f.Pos()), "groupByDate does not return a single map it created")
 		return
 	}
@@ -332,7 +332,7 @@ func ruleP12Group(p *Prog, r *Report) {
 		}
 	})
 	r.check(okOrder, rule, "order:first-seen", p.pos(f.Pos()), "a date is listed exactly when its hash is seen for the first time", "the date list is not extended exactly when a hash is new")
-	r.check(len(rets) == 1 && func() bool { ph, _ := phiCycle(rets[0].Results[1]); return len(ph) > 0 }(), rule, "order:returned", p.instrPos(rets[0]), "the ordered date list is returned", "the date list returned is not the one built in the loop")
+	r.check(len(rets) == 1 && func() bool { ph, _ := phiCycle(retResult(rets[0], 1)); return len(ph) > 0 }(), rule, "order:returned", p.instrPos(rets[0]), "the ordered date list is returned", "the date list returned is not the one built in the loop")
 
 	// Report.Run: rows
 	gc := callsTo(run, f)
@@ -350,41 +350,49 @@ func ruleP12Group(p *Prog, r *Report) {
 	r.check(okProv, rule, "report:provider", p.instrPos(gc[0]), "records are grouped by the aggregator's DateHash", "records are not grouped by the aggregator's DateHash")
 	// per-row total
 	nRow, nGrand := 0, 0
-	for _, c := range callsTo(run, total) {
-		arg := strip(c.Common().Args[0])
-		if lk, ok := arg.(*ssa.Lookup); ok {
-			nRow++
-			okMap := grp != nil && sameValue(lk.X, grp)
-			// index = aggregator.DateHash(date), date element of the dates list (or the filled list)
-			n, _, a, _ := methodCall(lk.Index)
-			okIdx := n == "DateHash" && len(a) == 1 && rangeElemOf(a[0]) != nil
-			r.check(okMap && okIdx, rule, "report:row-total", p.instrPos(c), "row total = Total(group of the row's hash)", "a row's total is not computed from the group of the row's own hash")
-			// visited at most once: a MapUpdate seen[hash]=true dominates, guarded by !seen[hash]
-			once := false
-			for _, g := range guardsOf(c.Block()) {
-				if lk2, ok := g.Cond.(*ssa.Lookup); ok && !g.Pol && sameValue(lk2.Index, lk.Index) {
-					eachInstr(run, func(in ssa.Instruction) {
-						if mu, ok := in.(*ssa.MapUpdate); ok && sameValue(mu.Map, lk2.X) && sameValue(mu.Key, lk.Index) && mu.Block().Dominates(c.Block()) {
-							if b, isB := constBool(mu.Value); isB && b {
-								once = true
+	for _, vc := range virtualCallsTo(run, total) {
+		vc := vc
+		vc.run(func() {
+			c := vc.call
+			arg := strip(c.Common().Args[0])
+			if lk, ok := arg.(*ssa.Lookup); ok {
+				nRow++
+				okMap := grp != nil && sameValue(lk.X, grp)
+				// index = aggregator.DateHash(date), date element of the dates list (or the filled list)
+				n, _, a, _ := methodCall(lk.Index)
+				okIdx := n == "DateHash" && len(a) == 1 && rangeElemOf(a[0]) != nil
+				r.check(okMap && okIdx, rule, "report:row-total", p.instrPos(c), "row total = Total(group of the row's hash)", "a row's total is not computed from the group of the row's own hash")
+				// visited at most once: a MapUpdate seen[hash]=true dominates, guarded by !seen[hash]
+				once := false
+				for _, g := range guardsOf(vc.where()) {
+					if lk2, ok := g.Cond.(*ssa.Lookup); ok && !g.Pol && sameValue(lk2.Index, lk.Index) {
+						eachInstr(run, func(in ssa.Instruction) {
+							if mu, ok := in.(*ssa.MapUpdate); ok && sameValue(mu.Map, lk2.X) && sameValue(mu.Key, lk.Index) && mu.Block().Dominates(vc.where()) {
+								if b, isB := constBool(mu.Value); isB && b {
+									once = true
+								}
 							}
-						}
-					})
+						})
+					}
 				}
+				r.check(once, rule, "report:row-once", p.instrPos(c), "each hash yields at most one row", "a period can be printed (and counted) in more than one row")
+				return
 			}
-			r.check(once, rule, "report:row-once", p.instrPos(c), "each hash yields at most one row", "a period can be printed (and counted) in more than one row")
-			continue
-		}
-		nGrand++
-		r.check(sameValue(arg, recs), "P12-grand", "report:grand-total", p.instrPos(c), "grand total is computed from the very slice that was grouped", "grand total and rows are computed from different record slices")
+			nGrand++
+			r.check(sameValue(arg, recs), "P12-grand", "report:grand-total", p.instrPos(c), "grand total is computed from the very slice that was grouped", "grand total and rows are computed from different record slices")
+		})
 	}
 	shouldSum := p.fn("klog/service", "ShouldTotalSum")
-	for _, c := range callsTo(run, shouldSum) {
-		arg := strip(c.Common().Args[0])
-		if _, ok := arg.(*ssa.Lookup); ok {
-			continue // row: covered by P02-diff (same records as the row total)
-		}
-		r.check(sameValue(arg, recs), "P12-grand", "report:grand-should", p.instrPos(c), "grand should-total is computed from the very slice that was grouped", "grand should-total is computed from a different record slice")
+	for _, vc := range virtualCallsTo(run, shouldSum) {
+		vc := vc
+		vc.run(func() {
+			c := vc.call
+			arg := strip(c.Common().Args[0])
+			if _, ok := arg.(*ssa.Lookup); ok {
+				return // row: covered by P02-diff (same records as the row total)
+			}
+			r.check(sameValue(arg, recs), "P12-grand", "report:grand-should", p.instrPos(c), "grand should-total is computed from the very slice that was grouped", "grand should-total is computed from a different record slice")
+		})
 	}
 	r.check(nRow == 1 && nGrand == 1, rule, "report:totals", p.pos(run.Pos()), "one row total and one grand total", fmt.Sprintf("%d row totals, %d grand totals", nRow, nGrand))
 	// rows iterate the ordered date list (or the filled range), not the map
@@ -525,8 +533,8 @@ func ruleP12Today(p *Prog, r *Report) {
 				}
 			}
 		}
-		scan(ret.Results[0], 0)
-		scan(ret.Results[1], 0)
+		scan(retResult(ret, 0), 0)
+		scan(retResult(ret, 1), 0)
 		missing := 0
 		for l := range lists {
 			if included[l] {
@@ -593,9 +601,9 @@ func ruleP12Today(p *Prog, r *Report) {
 	if r.anchorFn(rule, ev, "Today.evaluate") {
 		ok := false
 		for _, ret := range returnsOf(ev) {
-			c0, _ := callOf(ret.Results[0])
-			c1, _ := callOf(ret.Results[1])
-			c2, _ := callOf(ret.Results[2])
+			c0, _ := callOf(retResult(ret, 0))
+			c1, _ := callOf(retResult(ret, 1))
+			c2, _ := callOf(retResult(ret, 2))
 			if c0 != nil && c1 != nil && c2 != nil && staticCallee(c0) != nil && staticCallee(c1) != nil && staticCallee(c2) != nil {
 				ok = fnBase(staticCallee(c0)) == "Total" && fnBase(staticCallee(c1)) == "ShouldTotalSum" && fnBase(staticCallee(c2)) == "Diff" &&
 					strip(c0.Common().Args[0]) == ssa.Value(ev.Params[1]) && strip(c1.Common().Args[0]) == ssa.Value(ev.Params[1]) &&
